@@ -1424,6 +1424,33 @@ func (e *Exec) evalInvariant(f *frame, c *Clause, li *loopInfo, h *Heap, over ma
 				}
 				e.eng.assumes[fmt.Sprintf("loop local %q of %s (loop %d) not found by name; bound to the only loop-carried %s variable %q", name, f.fn.Name(), li.ord, want, cands[0].Comment)] = true
 			}
+			if !ok {
+				// ... or exactly one variable of that type is defined before the loop (on the dominator chain)
+				qual := func(p *types.Package) string {
+					if f.fn.Pkg != nil && p == f.fn.Pkg.Pkg {
+						return "" // the contract names types of its own package without qualifier
+					}
+					return p.Name()
+				}
+				names := map[string]bool{}
+				for b := li.header.Idom(); b != nil; b = b.Idom() {
+					for _, in := range b.Instrs {
+						if d, isRef := in.(*ssa.DebugRef); isRef && d.Object() != nil {
+							if vr, isVar := d.Object().(*types.Var); isVar && types.TypeString(vr.Type(), qual) == want {
+								names[vr.Name()] = true
+							}
+						}
+					}
+				}
+				if len(names) == 1 {
+					for other := range names {
+						if v2, ok2 := e.lookupLocal(f, li, other, h, over); ok2 {
+							v, ok = v2, true
+							e.eng.assumes[fmt.Sprintf("loop local %q of %s (loop %d) not found by name; bound to the only %s variable defined before the loop, %q", name, f.fn.Name(), li.ord, want, other)] = true
+						}
+					}
+				}
+			}
 		}
 		if !ok {
 			panic(fmt.Sprintf("%s:%d: loop local %q not found at loop %d of %s", c.File, c.Line, name, li.ord, f.fn))
